@@ -516,7 +516,7 @@ fn oracle_c07(fields: &[&str]) -> String {
         // exact mode differs from the linearised matrix by second order terms
         let tol = if h.exact { 3.0 * angle * angle * size + 1e-6 } else { 1e-6 };
         for i in 0..3 {
-            if (o[i] - want[i]).abs() > tol {
+            if !((o[i] - want[i]).abs() <= tol) {
                 return format!(
                     "oracle FAIL epoch/convention: element {i} is {} but the guidance-note formula gives {} (tol {tol:e}) for {def} at t={}",
                     o[i], want[i], c[3]
@@ -529,7 +529,7 @@ fn oracle_c07(fields: &[&str]) -> String {
         let s = 1.0 + h.s * 1e-6;
         let d0 = ((data[0][0] - data[1][0]).powi(2) + (data[0][1] - data[1][1]).powi(2) + (data[0][2] - data[1][2]).powi(2)).sqrt();
         let d1 = ((out[0][0] - out[1][0]).powi(2) + (out[0][1] - out[1][1]).powi(2) + (out[0][2] - out[1][2]).powi(2)).sqrt();
-        if (d1 - s.abs() * d0).abs() > 1e-6 * (1.0 + d0 * 1e-7) {
+        if !((d1 - s.abs() * d0).abs() <= 1e-6 * (1.0 + d0 * 1e-7)) {
             return format!("oracle FAIL similarity: distance {d0} became {d1}, scale {s}");
         }
         let basis = [Coor4D([0., 0., 0., 0.]), Coor4D([1., 0., 0., 0.]), Coor4D([0., 1., 0., 0.]), Coor4D([0., 0., 1., 0.])];
@@ -540,7 +540,7 @@ fn oracle_c07(fields: &[&str]) -> String {
             let det = c1[0] * (c2[1] * c3[2] - c2[2] * c3[1]) - c2[0] * (c1[1] * c3[2] - c1[2] * c3[1]) + c3[0] * (c1[1] * c2[2] - c1[2] * c2[1]);
             let bad = (dot(c1, c1) - 1.0).abs().max((dot(c2, c2) - 1.0).abs()).max((dot(c3, c3) - 1.0).abs()).max(dot(c1, c2).abs()).max(dot(c1, c3).abs()).max(dot(c2, c3).abs());
             // the translation (up to 1000) costs digits when the columns are recovered by differences
-            if bad > 1e-9 || (det - 1.0).abs() > 1e-9 {
+            if !(bad <= 1e-9) || !((det - 1.0).abs() <= 1e-9) {
                 return format!("oracle FAIL rotation matrix not a proper rotation: defect {bad:e}, det {det}");
             }
         }
@@ -562,7 +562,7 @@ fn oracle_c07(fields: &[&str]) -> String {
             Ok((_, o2)) => {
                 for (a, b) in out.iter().zip(o2.iter()) {
                     for i in 0..3 {
-                        if (a[i] - b[i]).abs() > 1e-9 * (1.0 + a[i].abs() * 1e-7) {
+                        if !((a[i] - b[i]).abs() <= 1e-9 * (1.0 + a[i].abs() * 1e-7)) {
                             return format!("oracle FAIL t_obs: {} gives {} but epoch {tobs} on the tuples gives {}", def, a[i], b[i]);
                         }
                     }
@@ -581,7 +581,7 @@ fn oracle_c07(fields: &[&str]) -> String {
                 let angle = (0..3).map(|i| ((h.r[i] + h.dr[i] * dt) * arcsec).abs()).fold(0.0f64, f64::max);
                 let tol = if h.exact { 1e-6 } else { 4.0 * angle * angle * size + 1e-6 };
                 for i in 0..3 {
-                    if (c[i] - b[i]).abs() > tol {
+                    if !((c[i] - b[i]).abs() <= tol) {
                         return format!("oracle FAIL roundtrip: {} came back as {} (tol {tol:e}) under {def}", c[i], b[i]);
                     }
                 }
@@ -1491,19 +1491,19 @@ fn oracle_c19a(fields: &[&str]) -> String {
     let tol = 1e-11 * x.abs().max(1.0);
     let dm = angular::dd_to_iso_dm(x);
     let back = angular::iso_dm_to_dd(dm);
-    if (back - x).abs() > tol {
+    if !((back - x).abs() <= tol) {
         return format!("oracle FAIL dd -> iso_dm -> dd: {x} became {back} (via {dm})");
     }
     let dms = angular::dd_to_iso_dms(x);
     let back = angular::iso_dms_to_dd(dms);
-    if (back - x).abs() > tol {
+    if !((back - x).abs() <= tol) {
         return format!("oracle FAIL dd -> iso_dms -> dd: {x} became {back} (via {dms})");
     }
     // the encoding itself: DDD = whole degrees, MM.mmm = minutes, same sign
     let d = x.abs().floor();
     let m = (x.abs() - d) * 60.0;
     let want = (d * 100.0 + m) * if x.is_sign_negative() { -1.0 } else { 1.0 };
-    if (dm - want).abs() > 1e-9 * want.abs().max(1.0) {
+    if !((dm - want).abs() <= 1e-9 * want.abs().max(1.0)) {
         return format!("oracle FAIL dd_to_iso_dm({x}) = {dm}, expected {want}");
     }
     // normalisation: an equivalent angle in the stated range
@@ -1531,13 +1531,13 @@ fn oracle_c19d(fields: &[&str]) -> String {
     let sign = if d < 0 { -1.0 } else { 1.0 };
     let want = sign * ((d as f64).abs() + (m as f64 + s / 60.0) / 60.0);
     let got = angular::dms_to_dd(d, m, s);
-    if (got - want).abs() > 1e-12 * want.abs().max(1.0) {
+    if !((got - want).abs() <= 1e-12 * want.abs().max(1.0)) {
         return format!("oracle FAIL dms_to_dd({d}, {m}, {s}) = {got}, expected {want}");
     }
     let mm = m as f64 + s / 60.0;
     let want = sign * ((d as f64).abs() + mm / 60.0);
     let got = angular::dm_to_dd(d, mm);
-    if (got - want).abs() > 1e-12 * want.abs().max(1.0) {
+    if !((got - want).abs() <= 1e-12 * want.abs().max(1.0)) {
         return format!("oracle FAIL dm_to_dd({d}, {mm}) = {got}, expected {want}");
     }
     "oracle pass".to_string()
@@ -2125,6 +2125,33 @@ fn oracle_c08o(fields: &[&str]) -> String {
         Coor4D::geo(0.0, 100.0, 0.0, 0.0),
     ];
     let first_grid = def.split("grids=").nth(1).unwrap_or("").split(|c| c == ',' || c == ' ').next().unwrap_or("").trim_start_matches('@').to_string();
+    // a point outside all grids is failed in the inverse direction as in the forward one: NaN and not counted,
+    // alone or among points inside coverage; with the null grid it passes unchanged and is counted
+    // (the shipped grids cover Denmark, one of them Catalonia; the point inside is well inside all the Danish ones)
+    if !def.starts_with("deflection") && !def.contains("100800401") {
+        let outside = [Coor4D::geo(41.3874, 2.1686, 0.0, 2020.0), Coor4D::geo(51.5, -0.12, 30.0, 2020.0), Coor4D::geo(-33.0, 151.0, 0.0, 2020.0)];
+        let inside = Coor4D::geo(56.5, 12.0, 100.0, 2020.0);
+        let prep = |p: &Coor4D| if def.starts_with("deformation") { Ellipsoid::default().cartesian(p) } else { *p };
+        for forward in [true, false] {
+            let mut d = vec![prep(&inside), prep(&outside[0]), prep(&outside[1]), prep(&inside), prep(&outside[2])];
+            let before = d.clone();
+            let n = ctx.apply(op, if forward { Fwd } else { Inv }, &mut d).unwrap_or(usize::MAX);
+            let which = if forward { "forward" } else { "inverse" };
+            for k in [1usize, 2, 4] {
+                if def.contains("@null") {
+                    if !same_bits(&d[k], &before[k]) {
+                        return format!("oracle FAIL {def} {which}: a point outside all grids must pass unchanged with the null grid, got {:?}", d[k]);
+                    }
+                } else if !(d[k][0].is_nan() && d[k][1].is_nan()) {
+                    return format!("oracle FAIL {def} {which}: the point {:?} outside all grids comes back as {:?}, not as NaN", before[k], d[k]);
+                }
+            }
+            let want = if def.contains("@null") { 5 } else { 2 };
+            if n != want {
+                return format!("oracle FAIL {def} {which}: {n} successes for two points inside and three outside all grids (null grid: {})", def.contains("@null"));
+            }
+        }
+    }
     for p in pts {
         let mut d = if def.starts_with("deformation") { vec![Ellipsoid::default().cartesian(&p)] } else { vec![p] };
         let before = d[0];
@@ -2146,16 +2173,17 @@ fn oracle_c08o(fields: &[&str]) -> String {
             let Some(corr) = grid.at(&before, 0.5) else { continue };
             if grid.bands() == 1 {
                 // geoid heights are subtracted in the forward direction
-                if (d[0][2] - (before[2] - corr[0])).abs() > 1e-9 || d[0][0] != before[0] || d[0][1] != before[1] {
+                if !((d[0][2] - (before[2] - corr[0])).abs() <= 1e-9) || d[0][0] != before[0] || d[0][1] != before[1] {
                     return format!("oracle FAIL {def}: forward must subtract the geoid height {} from {}: got {}", corr[0], before[2], d[0][2]);
                 }
             } else {
                 // datum shifts are added in the forward direction
-                if (d[0][0] - (before[0] + corr[0])).abs() > 1e-15 || (d[0][1] - (before[1] + corr[1])).abs() > 1e-15 || d[0][2] != before[2] {
+                if !((d[0][0] - (before[0] + corr[0])).abs() <= 1e-15) || !((d[0][1] - (before[1] + corr[1])).abs() <= 1e-15) || d[0][2] != before[2] {
                     return format!("oracle FAIL {def}: forward must add the shift ({}, {}) to ({}, {}): got ({}, {})", corr[0], corr[1], before[0], before[1], d[0][0], d[0][1]);
                 }
             }
         }
+        // (unreachable for failed tuples: see `continue` above)
         // the inverse undoes the forward inside coverage (not for the one-way deflection, nor raw output)
         // (nor for the test file whose sub-grid deliberately disagrees with its parent: the round trip
         // across such a boundary is not defined)
@@ -2165,7 +2193,7 @@ fn oracle_c08o(fields: &[&str]) -> String {
             if m == 1 {
                 let tol = if def.starts_with("deformation") { 1e-3 } else { 1e-9 };
                 for i in 0..3 {
-                    if (d[0][i] - before[i]).abs() > tol * (1.0 + before[i].abs() * 1e-7) {
+                    if !((d[0][i] - before[i]).abs() <= tol * (1.0 + before[i].abs() * 1e-7)) {
                         return format!("oracle FAIL {def}: inverse of forward gives {} for {} (element {i}, via {})", d[0][i], before[i], fwd[i]);
                     }
                 }
@@ -2454,7 +2482,7 @@ fn oracle_c15a(fields: &[&str]) -> String {
             };
             let want = [-(dlon_sec * sec), dlat_sec * sec];
             for b in 0..2 {
-                if (v[b] - want[b]).abs() > 1e-6 * want[b].abs() + 1e-12 {
+                if !((v[b] - want[b]).abs() <= 1e-6 * want[b].abs() + 1e-12) {
                     return format!("oracle FAIL node {k} of sub-grid {}: band {b} decodes to {} but the ASCII twin says {}", a.name, v[b], want[b]);
                 }
             }
@@ -2939,7 +2967,7 @@ fn oracle_c01(fields: &[&str]) -> String {
                 if first_fwd { "forward then inverse" } else { "inverse then forward" }, p[0], p[1], p[2], q[0], q[1], q[2], d, tol
             );
         }
-        if p[3].to_bits() != q[3].to_bits() && space != "geodesic" && (p[3] - q[3]).abs() > 1e-9 {
+        if p[3].to_bits() != q[3].to_bits() && space != "geodesic" && !((p[3] - q[3]).abs() <= 1e-9) && !(p[3].is_nan() && q[3].is_nan()) {
             return format!("oracle FAIL {def}: the time element came back changed ({} -> {})", p[3], q[3]);
         }
     }
